@@ -308,7 +308,7 @@ func (e *Env) GoCheck(src []byte, pkgFiles Files) (class, msg string) {
 	fset := gotoken.NewFileSet()
 	f, err := goparser.ParseFile(fset, "xgo_autogen.go", src, goparser.AllErrors)
 	if err != nil {
-		return "go-parse", firstLine(err.Error())
+		return "go-parse:" + ErrClass(err.Error()), firstLine(err.Error())
 	}
 	files := []*goast.File{f}
 	for _, n := range pkgFiles.Names() {
@@ -331,8 +331,10 @@ func (e *Env) GoCheck(src []byte, pkgFiles Files) (class, msg string) {
 	return "", ""
 }
 
+var pkgNameRe = regexp.MustCompile(`undefined: (fmt|os|strconv|strings|errors|sort|math|time|bytes|reflect|io|bufio)\b`)
+
 var errPhrases = []string{
-	"overflows", "truncated", "already declared", "permits only one iteration variable", "expects", "declared and not used", "imported and not used", "missing return", "assignment mismatch", "redeclared",
+	"missing parentheses around composite literal", "overflows", "truncated", "already declared", "permits only one iteration variable", "expects", "declared and not used", "imported and not used", "missing return", "assignment mismatch", "redeclared",
 	"not enough arguments", "too many arguments", "not enough return values", "too many return values",
 	"used as value", "is not an expression", "is not a type", "is not used", "no new variables",
 	"non-boolean condition", "cannot use", "cannot convert", "cannot assign", "cannot infer", "cannot range over",
@@ -350,6 +352,9 @@ var errPhrases = []string{
 // phrase it contains (identifiers, numbers, quoted text and positions do not matter).
 func ErrClass(msg string) string {
 	msg = firstLine(msg)
+	if pkgNameRe.MatchString(msg) {
+		return "undefined-package-name" // the name of an imported package does not resolve
+	}
 	for _, ph := range errPhrases {
 		if strings.Contains(msg, ph) {
 			return strings.ReplaceAll(ph, " ", "-")
